@@ -11,6 +11,15 @@ pins = json.load(open(os.path.join(SPEC, "pins_uhppote.json")))
 OPS = sorted(k[:-len("#contract")] for k in pins if k.startswith("uhppote.(*uhppote).") and k.endswith("#contract") and "debugf" not in k and "$" not in k)
 OPRE = r"^uhppote\.\(\*uhppote\)\.[A-Z]\w*#"
 
+WIRE_REPLAY = [
+    {"match": "types.(*HHmm)", "driver": "types_wire", "pkg": "types", "case": "hhmm"},
+    {"match": "types.(HHmm)", "driver": "types_wire", "pkg": "types", "case": "hhmm"},
+    {"match": "types.(*DateTime)", "driver": "types_wire", "pkg": "types", "case": "datetime"},
+    {"match": "types.(*Date)", "driver": "types_wire", "pkg": "types", "case": "date"},
+    {"match": "types.(Date)", "driver": "types_wire", "pkg": "types", "case": "date"},
+    {"match": "types.(", "driver": "types_wire", "pkg": "types", "case": "ints"},
+]
+
 def entry(id, **kw):
     e = {"id": id, "level": "proof", "pinned": {}, "not_decided": [], "replay": []}
     e.update(kw)
@@ -26,7 +35,7 @@ new = []
 new.append(entry("C01",
     functions=OPS + ["types.(Date).MarshalUT0311L0x", "types.(DateTime).MarshalUT0311L0x", "types.(HHmm).MarshalUT0311L0x", "types.(PIN).MarshalUT0311L0x",
                      "types.(SerialNumber).MarshalUT0311L0x", "encoding/bcd.Encode"],
-    scope=[OPRE + r"ensures:(wire|once)$", OPRE + r"requires:", r"^types\.\(\w+\)\.MarshalUT0311L0x#", r"^encoding/bcd\.Encode#"],
+    scope=[OPRE + r"ensures:(wire|once)$", OPRE + r"requires:", r"^types\.\(\w+\)\.MarshalUT0311L0x#", r"^encoding/bcd\.Encode#"], replay=WIRE_REPLAY,
     pinned_file="pins_uhppote.json", pinned_labels=["contract", "macro"],
     assumptions=COMMON_ASSUME,
     not_decided=["GetDevices (discovery broadcast) request bytes: decided under C11's contracts"],
@@ -36,7 +45,7 @@ new.append(entry("C02",
                      "types.(*HHmm).UnmarshalUT0311L0x", "types.(*PIN).UnmarshalUT0311L0x", "types.(*SerialNumber).UnmarshalUT0311L0x", "types.(*Version).UnmarshalUT0311L0x",
                      "types.(*MacAddress).UnmarshalUT0311L0x", "encoding/bcd.Decode"],
     scope=[OPRE + r"ensures:(result|accept)$", OPRE + r"requires:", r"^types\.\(\*\w+\)\.UnmarshalUT0311L0x#", r"^encoding/bcd\.Decode#"],
-    scope_exclude=[r"#ensures:civil$"],
+    scope_exclude=[r"#ensures:civil$"], replay=WIRE_REPLAY,
     pinned_file="pins_uhppote.json", pinned_labels=["contract", "macro"],
     assumptions=COMMON_ASSUME,
     explanation="The `result` postcondition of every operation states each returned field as a function of the reply bytes R (offset and encoding from the protocol table) and the sentinels; `accept` states the domain conditions under which a reply may be turned into a result at all (boolean bytes 0/1, event type != 0xff, echoed card/profile). The per-type decoders are verified against contracts that make out-of-domain bytes an error or the zero value."))
